@@ -183,7 +183,6 @@ def s_revert(vc):
     if kind == "tcp":
         vc.ensure("revert.restores[message_count]", o["nmsg"] == 1)
     vc.ensure("revert.clears_backup", has_no_backup(f))
-    vc.ensure("revert.then_not_modified", True)  # placeholder name kept stable for known-findings bookkeeping
 
 
 @scenario("modified", functions=[FL + ".modified", FL + ".get_state"])
@@ -260,3 +259,178 @@ def s_copy(vc):
         vc.ensure(f"copy.original_unchanged[{k}]", c)
     vc.ensure("copy.original_still_live", vc.eq(f.live, True))
     vc.ensure("copy.state_shares_no_metadata_dict", dict_get(st, "metadata") is not f.metadata)
+
+
+# =============================================================================================
+# T2 (bounded): real flows of every type, edit sequences, backup / revert / copy; get_state() snapshots compared
+
+
+def _edits(kind):
+    """named in-place edits applicable to a flow of this kind (each changes the serialised state)"""
+    from mitmproxy import flow as mflow
+    from mitmproxy import http, tcp, udp, websocket
+    from wsproto.frame_protocol import Opcode
+
+    def set_attr(path, value):
+        def e(f):
+            o = f
+            *head, last = path.split(".")
+            for p in head:
+                o = getattr(o, p)
+            setattr(o, last, value)
+        return e
+
+    E = {
+        "marked": set_attr("marked", ":grapes:"),
+        "comment": set_attr("comment", "edited comment"),
+        "metadata.new_key": lambda f: f.metadata.__setitem__("note", ["a", {"b": 1}]),
+        "metadata.nested_mutation": lambda f: f.metadata.setdefault("nest", {"l": []})["l"].append(len(f.metadata["nest"]["l"])),
+        "is_replay": set_attr("is_replay", "request"),
+        "error": lambda f: setattr(f, "error", mflow.Error("edited error", 946681300.0)),
+        "intercepted": set_attr("intercepted", True),
+        "client_conn.sni": set_attr("client_conn.sni", "edited.example"),
+        "server_conn.address": set_attr("server_conn.address", ("edited.example", 8443)),
+        "client_conn.alpn_offers": lambda f: f.client_conn.alpn_offers.append(b"h2"),
+        "timestamp_created": set_attr("timestamp_created", 946681999.5),
+    }
+    if kind in ("http", "http_err", "http_noresp", "ws"):
+        E.update({
+            "request.content": set_attr("request.content", b"edited body \x00\xff"),
+            "request.header_in_place": lambda f: f.request.headers.add("x-edited", "1"),
+            "request.path": set_attr("request.path", "/edited?x=1"),
+            "request.trailers": lambda f: setattr(f.request, "trailers", http.Headers([(b"t", b"1")])),
+            "response.replace": lambda f: setattr(f, "response", http.Response.make(418, b"teapot", {"x": "y"})),
+        })
+        if kind == "http":
+            E.update({
+                "response.status": set_attr("response.status_code", 599),
+                "response.header_in_place": lambda f: f.response.headers.__setitem__("content-type", "text/edited"),
+                "response.drop": set_attr("response", None),
+            })
+        if kind == "ws":
+            E.update({
+                "websocket.append": lambda f: f.websocket.messages.append(websocket.WebSocketMessage(Opcode.TEXT, True, b"edited", 946681250.0)),
+                "websocket.message_content": lambda f: setattr(f.websocket.messages[0], "content", b"edited frame"),
+                "websocket.close_code": set_attr("websocket.close_code", 1011),
+            })
+    if kind.startswith("tcp") or kind.startswith("udp"):
+        M = tcp.TCPMessage if kind.startswith("tcp") else udp.UDPMessage
+        E.update({
+            "messages.append": lambda f: f.messages.append(M(True, b"edited", 946681250.0)),
+            "messages.content": lambda f: setattr(f.messages[0], "content", b"edited message"),
+            "messages.delete": lambda f: f.messages.pop() if len(f.messages) > 1 else f.messages.append(M(False, b"x", 1.0)),
+        })
+    if kind.startswith("dns"):
+        E.update({
+            "dns.request_id": set_attr("request.id", 4242),
+            "dns.request_flag": set_attr("request.recursion_desired", False),
+        })
+        if kind == "dns":
+            E.update({"dns.response_drop": set_attr("response", None), "dns.response_code": set_attr("response.response_code", 3)})
+    return E
+
+
+def _apply(menu, name, f):
+    """an edit whose target does not exist any more (e.g. response dropped earlier) is a no-op"""
+    try:
+        menu[name](f)
+    except (AttributeError, IndexError, KeyError):
+        pass
+
+
+def _core(state):
+    """the state record with the backup slot set aside (what 'differs from its backup' compares)"""
+    s = dict(state)
+    s.pop("backup", None)
+    return s
+
+
+def bounded(tier, seed):
+    import copy
+    import itertools
+    import random
+    from props import ioflows
+    b = Bounded()
+    b.rule = ("real flows of 10 type/shape kinds (http with/without response, http error, websocket, tcp, udp, dns, each also with error) x "
+              "edit sequences of length <= 2 exhaustively (3-4 seeded) from a per-type menu of in-place and replacing edits (request, response, messages, "
+              "websocket frames, dns fields, metadata incl. nested mutation, marker, comment, error, replay mark, connection attributes): "
+              "backup -> edits -> modified -> second backup -> revert, and copy -> edits on either side; get_state() snapshots compared. "
+              "distinct = (kind, edit sequence, scenario); non-trivial = at least one edit")
+    b.bound = "edit sequences <= 4; exhaustive for <= 2 (quick) / <= 3 (thorough)"
+    rnd = random.Random(seed)
+    for kind in ioflows.FLOW_KINDS:
+        menu = _edits(kind)
+        names = sorted(menu)
+        full = 2 if tier == "quick" else 3
+        seqs = [()] + [s for n in range(1, full + 1) for s in itertools.product(names, repeat=n)]
+        for _ in range(150 if tier == "quick" else 3000):
+            seqs.append(tuple(rnd.choice(names) for _ in range(rnd.randint(full + 1, 4))))
+        if tier == "quick":
+            two = [s for s in seqs if len(s) == 2]
+            rnd.shuffle(two)
+            seqs = [s for s in seqs if len(s) != 2] + two[:200]
+        for seq in seqs:
+            inp = {"kind": kind, "edits": list(seq)}
+            # ---------------- backup / modified / revert
+            f = ioflows.mk_flow(kind)
+            b.case((kind, seq, "backup-revert"), nontrivial=len(seq) > 0)
+            s0 = copy.deepcopy(f.get_state())
+            if f.modified():
+                b.fail("modified.false_without_backup", inp, "modified() before any backup")
+            f.backup()
+            if _core(f.get_state()) != _core(s0):
+                b.fail("backup.leaves_state_unchanged", inp, "")
+            if f.modified():
+                b.fail("modified.false_when_state_equals_backup", inp, "backup(); modified() -> True without any edit")
+            for i, name in enumerate(seq):
+                _apply(menu, name, f)
+                if i == 0:
+                    f.backup()          # a second backup must not replace the first
+                differs = _core(f.get_state()) != _core(s0)
+                m = f.modified()
+                if differs and not m:
+                    b.fail("modified.true_when_state_differs", dict(inp, after=i + 1), "")
+                if not differs and m:
+                    b.fail("modified.false_when_state_equals_backup", dict(inp, after=i + 1), "state equals the backup again")
+            f.revert()
+            s1 = f.get_state()
+            if s1 != s0:
+                diff = [k for k in s0 if s0[k] != s1.get(k)]
+                b.fail("revert.restores_exactly_the_backed_up_state", inp, f"differing keys: {diff}")
+            if f._backup is not None:
+                b.fail("revert.clears_backup", inp, "")
+            if f.modified():
+                b.fail("modified.false_after_revert", inp, "")
+            # ---------------- copy
+            for with_backup in (False, True):
+                f = ioflows.mk_flow(kind)
+                if with_backup:
+                    f.backup()
+                    if seq:
+                        _apply(menu, seq[0], f)
+                b.case((kind, seq, "copy", with_backup), nontrivial=len(seq) > 0)
+                sf = copy.deepcopy(f.get_state())
+                c = f.copy()
+                sc = copy.deepcopy(c.get_state())
+                cinp = dict(inp, with_backup=with_backup)
+                if c.id == f.id or not isinstance(c.id, str) or not c.id:
+                    b.fail("copy.fresh_id", cinp, c.id)
+                if c.live:
+                    b.fail("copy.not_live", cinp, "")
+                if type(c) is not type(f):
+                    b.fail("copy.same_type", cinp, type(c).__name__)
+                if {k: v for k, v in sc.items() if k != "id"} != {k: v for k, v in sf.items() if k != "id"}:
+                    diff = [k for k in sf if k != "id" and sf[k] != sc.get(k)]
+                    b.fail("copy.equal_content", cinp, f"differing keys: {diff}")
+                for name in seq:
+                    _apply(menu, name, c)
+                if f.get_state() != sf:
+                    b.fail("copy.editing_the_copy_never_changes_the_original", cinp, [k for k in sf if sf[k] != f.get_state().get(k)])
+                sc2 = copy.deepcopy(c.get_state())
+                for name in seq:
+                    _apply(menu, name, f)
+                if with_backup:
+                    f.revert()
+                if c.get_state() != sc2:
+                    b.fail("copy.editing_the_original_never_changes_the_copy", cinp, [k for k in sc2 if sc2[k] != c.get_state().get(k)])
+    return b
